@@ -5,7 +5,7 @@
  *
  * Three parts, all drawn through vx_choose:
  *   A  shapes {2,3,4,7,60}x{1,2,5,20} x options x 18 column families x 2 layouts x 3 missing patterns
- *   B  ALL subsets of missing cells of 3x2 and 4x2 matrices (>= 2 present values per column)
+ *   B  ALL subsets of missing cells of 3x2 and 4x2 matrices [thorough: + 5x2, 3x3] (>= 2 present values per column)
  *   C  tensors of 1..4 blocks against MatrixPreprocess of each block
  * Reference: long-double statistics that never look at a missing cell.  Tolerances are forward error
  * bounds of the textbook formulas (see notes/C10.md); nothing is tuned. */
@@ -317,7 +317,7 @@ static void part_a(void) {
   int rows = th ? RT[vx_choose("rows", 8)] : RQ[vx_choose("rows", 5)];
   int cols = th ? CT[vx_choose("cols", 6)] : CQ[vx_choose("cols", 4)];
   int opt = vx_choose("option+1", 7) - 1;
-  int fam = vx_choose("family", NFAM), layout = vx_choose("layout", 2), pat = vx_choose("missing", 3), k = vx_choose("values", th ? 6 : 2);
+  int fam = vx_choose("family", NFAM), layout = vx_choose("layout", 2), pat = vx_choose("missing", 3), k = vx_choose("values", th ? 12 : 2);
   for (int j = 0; j < cols; j++) {
     int np = 0; for (int i = 0; i < rows; i++) { MASK[i][j] = (unsigned char)miss_at(pat, i, j); np += !MASK[i][j]; }
     if (np < 2) for (int i = 0; i < rows; i++) MASK[i][j] = 0;   /* tiny shapes: keep the column complete */
@@ -329,15 +329,16 @@ static void part_a(void) {
 }
 
 static void part_b(void) {
-  /* ALL subsets of missing cells of a 3x2 and a 4x2 matrix */
-  static const int PAIR[6][2] = {{0, 0}, {6, 7}, {11, 12}, {9, 1}, {13, 5}, {17, 8}};
-  int rows = 3 + vx_choose("rows-3", 2), cols = 2;
+  /* ALL subsets of missing cells of a 3x2 and a 4x2 matrix [thorough: also 5x2 and 3x3] */
+  static const int TRIP[6][3] = {{0, 0, 0}, {6, 7, 5}, {11, 12, 13}, {9, 1, 10}, {13, 5, 2}, {17, 8, 16}};
+  static const int SH[4][2] = {{3, 2}, {4, 2}, {5, 2}, {3, 3}};
+  int sh = vx_choose("shape", vx_thorough() ? 4 : 2), rows = SH[sh][0], cols = SH[sh][1];
   int opt = vx_choose("option+1", 7) - 1;
   int fs = vx_choose("families", 6), k = vx_choose("values", vx_thorough() ? 6 : 2);
   int mask = vx_choose("missing-subset", 1 << (rows * cols));
   for (int i = 0; i < rows; i++) for (int j = 0; j < cols; j++) MASK[i][j] = (unsigned char)((mask >> (i * cols + j)) & 1);
   for (int j = 0; j < cols; j++) { int np = 0; for (int i = 0; i < rows; i++) np += !MASK[i][j]; vx_require(np >= 2); }
-  for (int j = 0; j < cols; j++) gen_col(PAIR[fs][j], 200 + k * 7 + fs, j, rows);
+  for (int j = 0; j < cols; j++) gen_col(TRIP[fs][j], 200 + k * 7 + fs, j, rows);
   uint64_t h = run_case(rows, cols, opt, k, 1, 1);
   vx_outcome(h);
 }
@@ -384,7 +385,7 @@ static void body(void) {
 
 int main(int argc, char **argv) {
   vg_seed(getenv("VERIF_SEED") ? atol(getenv("VERIF_SEED")) : 0);
-  vx_describe("alphabet", "A: rows {2,3,4,7,60} [thorough +5,12,33] x cols {1,2,5,20} [+3,8] x option -1..5 x %d column families (generic, 4 constants incl. 0 and 5e-3, spread 0.02, offsets 1e3/-7.5, spread 50/1e3, means 9e-4/5e-3/1.5e-2/-0.8, first-row max/min, last-row max, column sum 3e-7, centred) x {all columns one family, rotating families} x missing pattern {none, 9%%, 20%% incl. row 0} x 2 [6] value sets; B: ALL subsets of missing cells of 3x2 and 4x2 (>=2 present per column) x option x 6 family pairs x 2 [6] value sets; C: tensors of 1..4 blocks x rows {3,7} x option x family x missing x value set", NFAM);
+  vx_describe("alphabet", "A: rows {2,3,4,7,60} [thorough +5,12,33] x cols {1,2,5,20} [+3,8] x option -1..5 x %d column families (generic, 4 constants incl. 0 and 5e-3, spread 0.02, offsets 1e3/-7.5, spread 50/1e3, means 9e-4/5e-3/1.5e-2/-0.8, first-row max/min, last-row max, column sum 3e-7, centred) x {all columns one family, rotating families} x missing pattern {none, 9%%, 20%% incl. row 0} x 2 [12] value sets; B: ALL subsets of missing cells of 3x2 and 4x2 [+5x2, 3x3] (>=2 present per column) x option x 6 family tuples x 2 [6] value sets; C: tensors of 1..4 blocks x rows {3,7} x option x family x missing x value set", NFAM);
   vx_describe("oracle", "long-double statistics over present cells: stored average = mean, stored scaling = documented statistic (1, sd, rms of raw column, sqrt(sd), max-min, mean), cells = (x-mean)/scale, column mean 0, promised sd/range of the transformed column, zero-spread columns exactly 0 and finite, compacted column gives the same fit, apply path on the same matrix = fit, on new rows = affine map from the stored vectors, TensorPreprocess block = MatrixPreprocess of the block (bit-identical)");
   vx_describe("tolerances", "avg 8 eps (n+2) max|x|; sd 4 d_avg + 8 eps (n+2) sd; cell 4 (d_avg/s + |t| d_s/s + 4 eps |t|); apply-new 8 eps ((|z|+|avg|)/|s| + |t|)");
   vx_describe("classes", "abs(colsum)<1e-6 (MatrixColAverage flush); opt=4,row0-missing (MatrixColumnMinMax seed); opt=5,abs(mean)<1e-3 (fit guard zeroes a column with spread); abs(scale) in [1e-3,1e-2) (fit guard 1e-3 vs apply guard 1e-2)");
